@@ -182,7 +182,21 @@ def probes(ctx):
     out.append(dict(base, spec=FrameSpec([0, 1, 2], ['a'], 'int', 'str', ['int64'], [[1], [2], [3]]),
                     route='csv', delimiter=',', include_index=False))
     # rows of a frame without columns are not written
-    out.append(dict(base, spec=FrameSpec(['x', 'y'], [], 'str', 'str', [], [[], []]), route='csv', delimiter=','))
+    out.append(dict(base, spec=FrameSpec([('x', 1), ('x', 2)], [], 'hier2', 'str', [], [[], []]), route='csv', delimiter=','))
+    # a leading space in the first field of a line
+    out.append(dict(base, spec=FrameSpec([' x', 'y'], ['a', 'b'], 'str', 'str', ['int64', 'bool'], [[1, True], [2, False]]),
+                    route='csv', delimiter=','))
+    # no data row, index_depth 2
+    out.append(dict(base, spec=FrameSpec([], ['a', 'b'], 'hier2', 'str', ['int64', 'bool'], []), route='csv', delimiter=','))
+    # columns_depth 2 read with store_filter=None (the table holds '' and no missing value)
+    out.append(dict(base, spec=FrameSpec(['x', 'y'], [('A', 'p'), ('A', 'q')], 'str', 'hier2', ['<U1', 'int64'], [['', 1], ['k', 2]]),
+                    route='csv', delimiter=','))
+    # an int-looking text before a non-numeric text in one str column
+    out.append(dict(base, spec=FrameSpec(['x', 'y'], ['a', 'b'], 'str', 'str', ['<U2', 'int64'], [['12', 1], ['ab', 2]]),
+                    route='csv', delimiter=','))
+    # an object column of bools and NaN rebuilt from its elements
+    out.append({'kind': 'memory', 'spec': FrameSpec(['x', 'y'], ['a', 'b'], 'str', 'str', ['object', 'int64'], [[True, 1], [T.NAN, 2]]),
+                'layout': None, 'route': 'pairs0->from_items', 'cls': 'Frame', 'tuple_constructor': True, 'pass_index_object': True})
     # unpickled index positions
     out.append({'kind': 'pickle', 'container': 'Frame', 'spec': FrameSpec(['x', 'y'], ['a', 'b'], 'str', 'str', ['int64', 'bool'],
                                                                         [[1, True], [2, False]]),
